@@ -72,6 +72,7 @@ func init() {
 		// extended existing rules
 		{"clone-limit-shares-reader", "C01.clone", lim, "return &LimitReader{r: rc, n: r.n}, nil", "_ = rc\n\treturn &LimitReader{r: r.r, n: r.n}, nil", "LimitReader).CloneReader:r"},
 		{"ahead-current-delegated", "C01.ahead", ahd, "\tcase io.SeekCurrent:\n\t\tabsOff = r.offset + offset\n\tcase io.SeekEnd:\n", "\tcase io.SeekCurrent, io.SeekEnd:\n", "not-current"},
+		{"drain-unclamped", "C01.drain", ibw, "min(l-(l%8), int64(len(buf))*8)", "l-(l%8)", "IOBitWriter).WriteBits#1"},
 		{"ahead-bypass-read", "C01.ahead", ahd, "\t\treadBytes := max(len(p), r.minRead)\n", "\t\tif len(p) >= r.minRead {\n\t\t\tn, err := r.rs.Read(p)\n\t\t\tr.offset += int64(n)\n\t\t\treturn n, err\n\t\t}\n\t\treadBytes := max(len(p), r.minRead)\n", "Read:single-reader"},
 		{"readat-conditional-seek", "C01.readat", ibr, "\t_, err := r.rs.Seek(readBytePos, io.SeekStart)\n\tif err != nil {\n\t\treturn 0, err\n\t}\n", "\tvar err error\n\tif readBytePos != r.bitPos/8 {\n\t\tif _, err = r.rs.Seek(readBytePos, io.SeekStart); err != nil {\n\t\t\treturn 0, err\n\t\t}\n\t}\n", "ReadBitsAt:read#1:positioned"},
 		{"ahead-hit-no-advance", "C01.ahead", ahd, "\t\t\tr.offset += copyLen\n", "", "Read:hit-advance"},
